@@ -72,13 +72,13 @@ def traced_class(cls):
             if not name.startswith("__"):
                 s = S()
                 if s is not None:
-                    s.yield_point()
+                    s.yield_point(shared=True)
             return object.__getattribute__(self, name)
 
         def __setattr__(self, name, value):
             s = S()
             if s is not None:
-                s.yield_point()
+                s.yield_point(shared=True)
             object.__setattr__(self, name, value)
         _TRACED[cls] = type("Traced" + cls.__name__, (cls,), {"__getattribute__": __getattribute__, "__setattr__": __setattr__})
     return _TRACED[cls]
